@@ -29,8 +29,8 @@ VER_ATTRS = [S('1.0.0'), S('1.9.0'), S('1.10.0'), S('2.0.0'), S('1.0.0-beta'), S
              S('18446744073709551616.0.0'), S('1.0.0-a_b'), S('1..0'), S(' 1.0.0'), S('1.0.0-rc.1'), S('1.0.0-rc.1.1'), S('0.0.0'),
              S('1.0.0-\u212a'), S('1.0.0+build.\u212a'), S('1.0.0-\u0130'), S('1.0.0-RC.1'), S('1.0.0-\u00e9'), S('\uff11.0.0'), S('1.0.0-rc\u2024 1')]
 STRINGER_ATTRS = [('str', b'abc'), ('str', b'ABC'), ('str', b'1.0.0'), ('str', b''), ('strptr', b'abc'), ('strpanic',), ('strnilptr',), ('strselfpanic',),
-                  ('jnum', b'12'), ('jnum', b'2.25'), ('jnum', b'1'), ('jnum', b'abc')]
-MISC_ATTRS = [('nil',), ('b', True), ('b', False), ('m', []), ('m', [(b'a', I(1))]), ('nilmap',)] + [('o', t) for t in list(range(21)) + [22, 23, 24, 25, 26, 27, 29, 30, 31, 32, 33, 34]]
+                  ('jnum', b'12'), ('jnum', b'2.25'), ('jnum', b'1'), ('jnum', b'abc'), ('strslice', b'abc'), ('strslice', b'10.0.0.1')]
+MISC_ATTRS = [('nil',), ('b', True), ('b', False), ('m', []), ('m', [(b'a', I(1))]), ('nilmap',)] + [('o', t) for t in list(range(21)) + [22, 23, 24, 25, 26, 27, 29, 30, 31, 32, 33, 34, 35, 36, 37]]
 ABSENT = ('absent',)   # pseudo value: key not in the object
 
 ALL_ATTRS = [ABSENT] + MISC_ATTRS + INT_ATTRS + FLOAT_ATTRS + STR_ATTRS + VER_ATTRS + STRINGER_ATTRS
@@ -346,6 +346,13 @@ FIXED_TEXTS = [
     'x eq 1 \tand y eq 2', 'x\teq 1', 'x eq 1 \x0cand y eq 2', 'x eq 1 \x0band y eq 2', 'x\u00a0eq 1', 'x eq 1 \u2028and y eq 2', 'x eq 1 \u0085and y eq 2', 'x eq\n1', 'x eq 1\nand y eq 2',
     'x eq 0.5', 'x eq .5', 'x eq 00.5', 'x eq 0', 'x eq 00', 'x eq -0', 'x eq 0.0.0', 'x eq 1.02.3', 'x.y.z.w pr', 'x.y. pr', '.x pr', 'x pr pr', 'x eq 1 pr',
 ]
+
+# look-alikes of the grammar's characters (typographic quotes, full-width forms, invisible characters, BOM)
+CONFUSABLES = ['x eq \u201cabc\u201d', 'x eq \u2018a\u2019', 'x in [\u201ca\u201d,"b"]', '\uff08x eq 1\uff09', 'x eq \uff11', 'x\u3000eq 1', 'x \uff45\uff51 1', 'x eq 1 \uff21\uff2e\uff24 y eq 2',
+               'x eq 1 and\u00a0y eq 2', 'x \u2260 1', 'x \u2265 1', 'x \u2264 1', 'x eq \u22121', 'x eq 1\u200b', 'x\u200b eq 1', 'x eq "a\u201d', '\u201cx\u201d eq 1', 'x eq 1 \u2227 y eq 2',
+               'x in \uff3b1,2\uff3d', 'x in [1\uff0c2]', 'x eq 1\uff0e5', 'x.y eq 1'.replace('.', '\u3002'), 'x eq true'.replace('t', '\u0442'), 'n\u043et (x eq 1)', '\ufeffx eq 1', 'x eq 1\ufeff',
+               '\ufeff(x eq 1)', '\ufffex eq 1', '\u2060x eq 1', '\u00adx eq 1']
+FIXED_TEXTS += CONFUSABLES
 
 # reserved words in attribute-path positions (after a dot, before a dot, as the whole name, as a prefix)
 KEYWORDS = ['pr', 'not', 'NOT', 'and', 'or', 'true', 'false', 'null', 'in', 'IN', 'eq', 'EQ', 'ne', 'NE', 'gt', 'GT', 'lt', 'LT', 'ge', 'GE',
